@@ -8,6 +8,8 @@
 #include <asl/Var.h>
 #include "c17_common.h" // TmpDir, posixRead/posixWrite, toStr/fromStr
 #include <cmath>
+#include <map>
+#include <set>
 
 namespace c18 {
 using namespace c17;
@@ -104,6 +106,190 @@ inline std::string iniEvent(const std::string& text, const std::vector<Entry>& s
 	       ",\"w\":" + vj::codes(r.w) + ",\"got\":" + entriesJson(r.got) + "}";
 }
 
+// ---- INI object sessions (growth; spec/IniCsv.tla "the IniFile object") ---------------------------------------------------
+// One asl::IniFile object at a time on `path`; every call is rendered as one ndjson event ("a.*") carrying what the real
+// object returned / the bytes a write left on disk.  A name whose section is the single byte 0 is a plain name (no "section/").
+struct ApiSession
+{
+	std::string path;        // the object's own file
+	std::string dir;         // scratch directory (path lives in it)
+	IniFile* ini;
+	std::vector<std::string> events;
+	unsigned long via;       // rotates set() / operator[]= for "set"
+	explicit ApiSession(const std::string& d, unsigned long salt = 0) : path(d + "/o-" + std::to_string((int)getpid()) + ".ini"), dir(d), ini(0), via(salt) {}
+	~ApiSession()
+	{
+		if (ini) { delete ini; ini = 0; }
+		unlink(path.c_str());
+		unlink((path + ".copy").c_str());
+	}
+	static std::string fullName(const std::string& sec, const std::string& key) { return sec == std::string(1, '\0') ? key : sec + "/" + key; }
+	static const char* bstr(bool b) { return b ? "true" : "false"; }
+	std::string diskJson(const char* field = "w")
+	{
+		std::string w;
+		bool ex = posixRead(path, w);
+		return std::string("\"") + field + "\":" + vj::codes(w) + ",\"exists\":" + bstr(ex);
+	}
+	void start(const std::string& text, bool exists)
+	{
+		unlink(path.c_str());
+		if (exists) posixWrite(path, text);
+		events.push_back("{\"op\":\"a.new\",\"text\":" + vj::codes(text) + ",\"exists\":" + bstr(exists) + "}");
+	}
+	void open(bool sw)
+	{
+		ini = new IniFile(toStr(path), sw);
+		events.push_back(std::string("{\"op\":\"a.open\",\"sw\":") + bstr(sw) + ",\"ok\":" + bstr(ini->ok()) +
+		                 ",\"fname\":" + bstr(fromStr(ini->fileName()) == path) + "}");
+	}
+	void set(const std::string& sec, const std::string& key, const std::string& val)
+	{
+		int how = (int)(via++ % 2);
+		if (how == 0) ini->set(toStr(fullName(sec, key)), toStr(val));
+		else (*ini)[toStr(fullName(sec, key))] = toStr(val);
+		events.push_back("{\"op\":\"a.set\",\"sec\":" + vj::codes(sec) + ",\"key\":" + vj::codes(key) + ",\"val\":" + vj::codes(val) +
+		                 ",\"via\":" + std::to_string(how) + "}");
+	}
+	std::string get(const std::string& sec, const std::string& key)
+	{
+		std::string r = fromStr((*ini)[toStr(fullName(sec, key))]);
+		events.push_back("{\"op\":\"a.get\",\"sec\":" + vj::codes(sec) + ",\"key\":" + vj::codes(key) + ",\"r\":" + vj::codes(r) + "}");
+		return r;
+	}
+	void cur(const std::string& sec)
+	{
+		ini->section(toStr(sec));
+		events.push_back("{\"op\":\"a.cur\",\"sec\":" + vj::codes(sec) + "}");
+	}
+	int asize(const std::string& sec)
+	{
+		int n = ini->arraysize(toStr(sec));
+		events.push_back("{\"op\":\"a.asize\",\"sec\":" + vj::codes(sec) + ",\"r\":" + std::to_string(n) + "}");
+		return n;
+	}
+	std::string aget(const std::string& field, int idx)
+	{
+		std::string r = fromStr(ini->array(toStr(field), idx));
+		events.push_back("{\"op\":\"a.aget\",\"field\":" + vj::codes(field) + ",\"idx\":" + std::to_string(idx) + ",\"r\":" + vj::codes(r) + "}");
+		return r;
+	}
+	void write()
+	{
+		ini->write();
+		events.push_back("{\"op\":\"a.write\"," + diskJson() + "}");
+	}
+	void writeTo()
+	{
+		std::string other = path + ".copy", w;
+		unlink(other.c_str());
+		ini->write(toStr(other));
+		bool made = posixRead(other, w);
+		events.push_back("{\"op\":\"a.writeTo\",\"w\":" + vj::codes(w) + ",\"made\":" + bstr(made) + "}");
+		unlink(other.c_str());
+	}
+	void writeBad()
+	{
+		// a path that cannot be written: its directory does not exist
+		ini->write(toStr(dir + "/no-such-dir/x.ini"));
+		events.push_back("{\"op\":\"a.writeBad\"," + diskJson() + "}");
+	}
+	void close()
+	{
+		delete ini;
+		ini = 0;
+		events.push_back("{\"op\":\"a.close\"," + diskJson() + "}");
+	}
+	// the const queries: operator[], has(), operator()(name, default) per probe name; sectionNames(); values(); values(section)
+	void observe(const std::vector<Entry>& probes)
+	{
+		const IniFile& c = *ini;
+		std::string e = "{\"op\":\"a.obs\",\"q\":[";
+		for (size_t i = 0; i < probes.size(); i++)
+		{
+			String name = toStr(fullName(probes[i].sec, probes[i].key));
+			e += std::string(i ? "," : "") + "{\"sec\":" + vj::codes(probes[i].sec) + ",\"key\":" + vj::codes(probes[i].key) + ",\"v\":" +
+			     vj::codes(fromStr(c[name])) + ",\"has\":\"" + (c.has(name) ? "t" : "f") + "\",\"dflt\":" + vj::codes(fromStr(c(name, String("\x01" "D")))) + "}";
+		}
+		e += "],\"secs\":[";
+		Array<String> secs = c.sectionNames();
+		for (int i = 0; i < secs.length(); i++) e += (i ? "," : "") + vj::codes(fromStr(secs[i]));
+		e += "],\"vals\":[";
+		Dic<> vals = c.values();
+		bool first = true;
+		foreach2(String & k, String & v, vals)
+		{
+			e += std::string(first ? "" : ",") + "{\"name\":" + vj::codes(fromStr(k)) + ",\"val\":" + vj::codes(fromStr(v)) + "}";
+			first = false;
+		}
+		e += "],\"vals2\":[";
+		first = true;
+		for (int i = 0; i < secs.length(); i++)
+		{
+			Dic<> sv = c.values(secs[i]);
+			foreach2(String & k, String & v, sv)
+			{
+				e += std::string(first ? "" : ",") + "{\"name\":" + vj::codes(fromStr(secs[i]) + "/" + fromStr(k)) + ",\"val\":" + vj::codes(fromStr(v)) + "}";
+				first = false;
+			}
+		}
+		events.push_back(e + "]}");
+	}
+};
+
+// compares an "a.obs" event with the expectation TLC printed for it (ApiObs): q[i].v exact, has unless "u", dflt one of the
+// alternatives; sectionNames(): secs <= got <= secs + secsMay; values(): vals <= got, the rest without value and named in valsMay
+// (top-level entries "-/key" are not compared: their spelling is not documented)
+inline std::string obsMismatch(const vj::Value& exp, const vj::Value& got)
+{
+	if (exp["q"].size() != got["q"].size()) return "harness: probe count";
+	for (size_t i = 0; i < exp["q"].size(); i++)
+	{
+		const vj::Value& e = exp["q"][i];
+		const vj::Value& g = got["q"][i];
+		std::string name = ApiSession::fullName(e["sec"].bytes(), e["key"].bytes());
+		if (g["v"].bytes() != e["v"].bytes()) return "operator[](" + vj::quote(name) + ") const is " + vj::quote(g["v"].bytes()) + ", specification says " + vj::quote(e["v"].bytes());
+		if (e["has"].s() != "u" && g["has"].s() != e["has"].s()) return "has(" + vj::quote(name) + ") is " + g["has"].s() + ", specification says " + e["has"].s();
+		bool ok = false;
+		for (size_t k = 0; k < e["dflt"].size(); k++) ok = ok || e["dflt"][k].bytes() == g["dflt"].bytes();
+		if (!ok) return "operator()(" + vj::quote(name) + ", default) is " + vj::quote(g["dflt"].bytes()) + ", specification says " + vj::quote(e["dflt"][0].bytes());
+	}
+	std::set<std::string> must, may, have;
+	for (size_t i = 0; i < exp["secs"].size(); i++) must.insert(exp["secs"][i].bytes());
+	for (size_t i = 0; i < exp["secsMay"].size(); i++) may.insert(exp["secsMay"][i].bytes());
+	for (size_t i = 0; i < got["secs"].size(); i++) have.insert(got["secs"][i].bytes());
+	if (have.size() != got["secs"].size()) return "sectionNames() lists a section twice";
+	for (std::set<std::string>::iterator it = must.begin(); it != must.end(); ++it)
+		if (!have.count(*it)) return "sectionNames() lacks " + vj::quote(*it);
+	for (std::set<std::string>::iterator it = have.begin(); it != have.end(); ++it)
+		if (!must.count(*it) && !may.count(*it)) return "sectionNames() lists " + vj::quote(*it) + ", a section that is neither in the file nor set";
+	static const char* WHICH[] = { "vals", "vals2" };
+	for (int w = 0; w < 2; w++)
+	{
+		std::map<std::string, std::string> gv;
+		for (size_t i = 0; i < got[WHICH[w]].size(); i++)
+		{
+			std::string n = got[WHICH[w]][i]["name"].bytes();
+			if (n.compare(0, 2, "-/") == 0) continue;
+			gv[n] = got[WHICH[w]][i]["val"].bytes();
+		}
+		std::string fn = w == 0 ? "values()" : "values(section)";
+		std::set<std::string> mayv, mustv;
+		for (size_t i = 0; i < exp["valsMay"].size(); i++) mayv.insert(exp["valsMay"][i].bytes());
+		for (size_t i = 0; i < exp["vals"].size(); i++)
+		{
+			std::string n = exp["vals"][i]["name"].bytes();
+			mustv.insert(n);
+			if (!gv.count(n)) return fn + " lacks " + vj::quote(n);
+			if (gv[n] != exp["vals"][i]["val"].bytes()) return fn + " has " + vj::quote(n) + " = " + vj::quote(gv[n]) + ", specification says " + vj::quote(exp["vals"][i]["val"].bytes());
+		}
+		for (std::map<std::string, std::string>::iterator it = gv.begin(); it != gv.end(); ++it)
+			if (!mustv.count(it->first) && !(mayv.count(it->first) && it->second.empty()))
+				return fn + " has " + vj::quote(it->first) + " = " + vj::quote(it->second) + ", a name that is neither in the file nor set";
+	}
+	return "";
+}
+
 // ---- CSV ------------------------------------------------------------------------------------------------------------
 inline std::string g15(double x)
 {
@@ -188,6 +374,192 @@ inline CsvResult runCsv(const std::string& path, int cols, const std::vector<std
 	posixRead(path, res.file);
 	res.got = readCsv(path, res.problem, (variant & 1) != 0);
 	return res;
+}
+
+// ---- CSV growth: writer options and files of other tools (spec/IniCsv.tla "dialects") ---------------------------------------
+// a cell as a JSON object: number (floating point or int) {"t":"n","s":%.15g text}, string {"t":"s","s":bytes},
+// nothing {"t":"0","s":[]} (operator[] outside the row / unknown column)
+inline std::string varJson(const Var& v)
+{
+	if (v.is(Var::NUMBER)) return "{\"t\":\"n\",\"s\":" + vj::codes(g15((double)v)) + "}";
+	if (v.is(Var::INT)) return "{\"t\":\"n\",\"s\":" + vj::codes(g15((double)(int)v)) + "}";
+	if (v.is(Var::STRING)) return "{\"t\":\"s\",\"s\":" + vj::codes(fromStr(v.toString())) + "}";
+	if (!v.ok()) return "{\"t\":\"0\",\"s\":[]}";
+	return "{\"t\":\"?\",\"s\":[]}";
+}
+inline std::string varRowJson(const Array<Var>& row)
+{
+	std::string r = "[";
+	for (int j = 0; j < row.length(); j++) r += (j ? "," : "") + varJson(row[j]);
+	return r + "]";
+}
+inline std::string namesJson(const Array<String>& a)
+{
+	std::string r = "[";
+	for (int j = 0; j < a.length(); j++) r += (j ? "," : "") + vj::codes(fromStr(a[j]));
+	return r + "]";
+}
+inline std::string namesJson(const std::vector<std::string>& a)
+{
+	std::string r = "[";
+	for (size_t j = 0; j < a.size(); j++) r += (j ? "," : "") + vj::codes(a[j]);
+	return r + "]";
+}
+
+struct WOptions
+{
+	int sep, dec, flush;
+	bool quotes, arff;
+	std::vector<std::string> names, types; // types: ARFF column types ("" numeric, "s" string, "a|b" nominal)
+	WOptions() : sep(','), dec('.'), flush(0), quotes(false), arff(false) {}
+};
+
+// writes the table with the options, reads it back when asked; returns the "csvw" event.  variant rotates the ways of naming the
+// columns (array / comma separated string / constructor) and of passing a row (cell by cell / one array)
+inline std::string runCsvW(const std::string& stem, const WOptions& o, const std::vector<std::vector<Cell> >& rows, const std::vector<bool>& early,
+                           bool readBack, unsigned variant, std::string& problem)
+{
+	std::string path = stem + (o.arff ? ".arff" : ".csv");
+	std::string rel = "t";
+	if (o.arff) { size_t p = stem.rfind('/'); rel = stem.substr(p == std::string::npos ? 0 : p + 1); }
+	std::string snaps = "[";
+	{
+		Array<String> names;
+		String joined;
+		for (size_t j = 0; j < o.names.size(); j++)
+		{
+			String n = toStr(o.names[j] + (o.arff && j < o.types.size() && !o.types[j].empty() ? ":" + o.types[j] : ""));
+			names << n;
+			joined << (j ? "," : "") << n;
+		}
+		bool plain = o.sep == ',' && o.dec == '.' && !o.quotes && o.flush == 0;
+		TabularDataFile* out;
+		if (plain && variant % 3 == 2) out = new TabularDataFile(toStr(path), names);
+		else
+		{
+			out = new TabularDataFile(toStr(path));
+			if (o.sep != ',') out->setSeparator((char)o.sep);
+			if (o.dec != '.') out->setDecimal((char)o.dec);
+			if (o.quotes) out->useQuotes();
+			if (o.flush > 0) out->flushEvery(o.flush);
+			if (variant % 3 == 1) out->columns(joined);
+			else out->columns(names);
+		}
+		if (!out->ok()) { problem = "harness: cannot create " + path; delete out; return ""; }
+		for (size_t i = 0; i < rows.size(); i++)
+		{
+			Array<Var> whole;
+			bool asArray = (variant / 3) % 2 == 1 && !early[i];
+			for (size_t j = 0; j < rows[i].size(); j++)
+			{
+				const Cell& c = rows[i][j];
+				Var v;
+				if (c.num)
+				{
+					double x = strtod(c.s.c_str(), 0);
+					if (g15(x) != c.s) { problem = "harness: \"" + c.s + "\" is not the %.15g text of a double"; delete out; return ""; }
+					if ((variant & 1) && c.s.size() <= 9 && c.s.find_first_of(".e") == std::string::npos && c.s != "-0") v = (int)x;
+					else v = x;
+				}
+				else v = toStr(c.s);
+				if (asArray) whole << v;
+				else *out << v;
+			}
+			if (asArray) *out << Var(whole);
+			if (early[i]) *out << "\n";
+			if (o.flush > 0)
+			{
+				std::string seen;
+				posixRead(path, seen);
+				snaps += std::string(snaps.size() > 1 ? "," : "") + "{\"r\":" + std::to_string(i + 1) + ",\"file\":" + vj::codes(seen) + "}";
+			}
+		}
+		delete out;
+	}
+	snaps += "]";
+	std::string file;
+	posixRead(path, file);
+	std::string e = "{\"op\":\"csvw\",\"sep\":" + std::to_string(o.sep) + ",\"dec\":" + std::to_string(o.dec) + ",\"q\":" + (o.quotes ? "true" : "false") +
+	                ",\"flush\":" + std::to_string(o.flush) + ",\"arff\":" + (o.arff ? "true" : "false") + ",\"rel\":" + vj::codes(rel) +
+	                ",\"names\":" + namesJson(o.names) + ",\"types\":" + namesJson(o.types) + ",\"rows\":" + rowsJson(rows) + ",\"file\":" + vj::codes(file) +
+	                ",\"snaps\":" + snaps + ",\"readable\":" + (readBack ? "true" : "false");
+	if (readBack)
+	{
+		TabularDataFile in(toStr(path));
+		e += ",\"gotnames\":" + namesJson(in.columns().clone()) + ",\"got\":[";
+		bool first = true;
+		while (in.nextRow()) { e += (first ? "" : ",") + varRowJson(in.row()); first = false; }
+		e += "]";
+	}
+	else e += ",\"gotnames\":[],\"got\":[]";
+	unlink(path.c_str());
+	return e + "}";
+}
+
+// a file produced by another tool: columns(), nextRow()/row(), file[name] for every column name, file[i] past the row and file[unknown
+// name], then data() on a second object; returns the "csvr" event
+inline std::string runCsvR(const std::string& path, const std::string& bytes, const std::string& types)
+{
+	posixWrite(path, bytes);
+	std::string e = "{\"op\":\"csvr\",\"file\":" + vj::codes(bytes) + ",\"types\":" + vj::codes(types);
+	bool past = true;
+	{
+		TabularDataFile in(toStr(path));
+		if (!types.empty()) in.readAs(toStr(types));
+		Array<String> names = in.columns().clone();
+		e += ",\"names\":" + namesJson(names) + ",\"ncols\":" + std::to_string(in.numColumns());
+		std::string rows = "[", byname = "[";
+		bool first = true;
+		while (in.nextRow())
+		{
+			rows += (first ? "" : ",") + varRowJson(in.row());
+			Array<Var> bn;
+			for (int j = 0; j < names.length(); j++) bn << in[names[j]];
+			byname += (first ? "" : ",") + varRowJson(bn);
+			if (in[in.row().length()].ok() || in[-1].ok() || in[String("\x01nope")].ok()) past = false;
+			first = false;
+		}
+		if (in.nextRow()) past = false; // the end stays the end
+		e += ",\"rows\":" + rows + "],\"byname\":" + byname + "]";
+	}
+	{
+		TabularDataFile in2(toStr(path));
+		if (!types.empty()) in2.readAs(toStr(types));
+		Array<Array<Var> > data = in2.data();
+		e += ",\"data\":[";
+		for (int i = 0; i < data.length(); i++) e += (i ? "," : "") + varRowJson(data[i]);
+		e += "]";
+	}
+	unlink(path.c_str());
+	return e + ",\"past\":" + (past ? "true" : "false") + "}";
+}
+
+// projection compare of rows rendered as JSON (expected: printed by TLC; got: varRowJson); rows of one empty string are skipped
+// on both sides when skipEmpty (whether an empty line is a row is not documented)
+inline bool cellEq(const vj::Value& a, const vj::Value& b)
+{
+	if (a["t"].s() != b["t"].s()) return false;
+	if (a["t"].s() == "i") return a["v"].ll() == b["v"].ll();
+	return a["s"].bytes() == b["s"].bytes();
+}
+inline bool emptyRow(const vj::Value& r) { return r.size() == 1 && r[0]["t"].s() == "s" && r[0]["s"].size() == 0; }
+inline std::string cellShow(const vj::Value& c)
+{
+	return c["t"].s() == "i" ? "int " + std::to_string(c["v"].ll()) : (c["t"].s() == "n" ? "number " : c["t"].s() == "s" ? "string " : "nothing ") + vj::quote(c["s"].bytes());
+}
+inline std::string rowsMismatch(const vj::Value& exp, const vj::Value& got, bool skipEmpty)
+{
+	std::vector<const vj::Value*> a, b;
+	for (size_t i = 0; i < exp.size(); i++) if (!skipEmpty || !emptyRow(exp[i])) a.push_back(&exp[i]);
+	for (size_t i = 0; i < got.size(); i++) if (!skipEmpty || !emptyRow(got[i])) b.push_back(&got[i]);
+	if (a.size() != b.size()) return std::to_string(b.size()) + " rows instead of " + std::to_string(a.size());
+	for (size_t i = 0; i < a.size(); i++)
+	{
+		if (a[i]->size() != b[i]->size()) return "row " + std::to_string(i) + " has " + std::to_string(b[i]->size()) + " cells instead of " + std::to_string(a[i]->size());
+		for (size_t j = 0; j < a[i]->size(); j++)
+			if (!cellEq((*a[i])[j], (*b[i])[j])) return "cell (" + std::to_string(i) + "," + std::to_string(j) + ") is " + cellShow((*b[i])[j]) + ", specification says " + cellShow((*a[i])[j]);
+	}
+	return "";
 }
 
 inline std::string csvEvent(int cols, const std::vector<std::vector<Cell> >& rows, const CsvResult& r)
